@@ -1,7 +1,7 @@
 #!/bin/sh
 # tools/keep_mutant.sh <PROP> <n> <name>: verify agent output /tmp/mut/<PROP>.out/m<n>.* in worktree /tmp/mut/<PROP>
 # (baseline passes with diff, demo fails with diff, demo passes without) and store under /verif/seeded/<name>/
-PROP=$1; N=$2; NAME=$3; WT=/tmp/mut/$PROP; OUT=/tmp/mut/$PROP.out
+PROP=$1; N=$2; NAME=$3; WT=/tmp/mut/$PROP; OUT=${OUTDIR:-/tmp/mut/$PROP.out}
 cd $WT || exit 2
 git checkout -q -- . ; git apply $OUT/m$N.diff || { echo "APPLY-FAIL"; exit 1; }
 BL=1; for try in 1 2 3; do /root/tools/baseline.py $WT > /tmp/mut/bl.$$ 2>&1; BL=$?; [ $BL -eq 0 ] && break; done  # ptys tests flake under load
